@@ -14,7 +14,9 @@
    What is NOT proved here:
    * the shared / swiss variants: c06_shared_disjoint proves that per-thread exclusive resources fed by shared
      allocators (answers fresh for every thread's resource) never hand overlapping memory to different threads, for
-     every interleaving of operations and thread creation; that each thread really gets its own resource
+     every interleaving of operations and thread creation, and c06_shared_release_order / _exact cover its
+     release (all destructors of all sub-resources first, then every page / oversize block once); that each thread
+     really gets its own resource
      (EnumerableThreadLocal, C19) and the atomics of the thread-local lookup are covered by monitors over real
      threads only;
    * "keeps its contents" is proved as: every store the resource performs lies inside one of its own bookkeeping
@@ -96,6 +98,23 @@ Theorem c06_shared_disjoint : forall P, page_size_ok P -> forall S, sreach P S -
   forall x y, In x (blocks st ++ books st) -> In y (blocks su ++ books su) -> disj x y.
 Proof. exact mr_shared_disjoint. Qed.
 Print Assumptions c06_shared_disjoint.
+
+(* release() of the shared / swiss resource = destruct_all of every per-thread resource, then release of every
+   per-thread resource (two-loop structure regenerated from the source: Gen.shared_release_destructs_first):
+   every destructor of every sub-resource runs before any page / oversize block of any sub-resource goes back ... *)
+Theorem c06_shared_release_order : forall P, page_size_ok P -> forall S, sreach P S ->
+  exists ed ef, snd (sh_release S) = ed ++ ef /\ Forall is_dtor ed /\ Forall is_free ef.
+Proof. exact mr_shared_release_order. Qed.
+Print Assumptions c06_shared_release_order.
+
+(* ... each registered destructor exactly once (newest first per sub-resource), each page and oversize block of each
+   sub-resource exactly once with its size and alignment, and every sub-resource is in its initial state afterwards *)
+Theorem c06_shared_release_exact : forall P, page_size_ok P -> forall S, sreach P S ->
+  sh_release S = (map (fun _ => init) S,
+                  concat (map (fun s => map dtor_ev (gdtors s)) S) ++ concat (map free_evs S)) /\
+  Forall (fun s => concat (page_batches s) = gpages s) S.
+Proof. exact mr_shared_release_exact. Qed.
+Print Assumptions c06_shared_release_exact.
 
 (* non-vacuity: real page sizes satisfy the hypothesis, fresh oracles exist, non-trivial states are reachable *)
 Example c06_params_4096 : page_size_ok 4096.
